@@ -289,6 +289,56 @@ def a8(F, rep):
             if not bad else "; ".join(sorted(set(bad))[:3]))
 
 
+def a9(F, rep):
+    """Every chunk the scanner records for an accepted stream must account for exactly the bytes that stream consumed:
+    the arm either advances the cursor by `res.compressed_size`, or — when the extent of the chunk comes from somewhere
+    else (the IDAT chunk lengths) — compares `res.compressed_size` with the payload it handed to the decoder.  Otherwise
+    bytes the decoder ignored behind the last block are dropped from the container and recreate cannot restore them."""
+    from .c13 import _roots_of
+    b = F.body("preflate_rs::scan_deflate::split_into_deflate_streams")
+    idx = set(b.locals_named("index"))
+    n = 0
+    for bb in sorted(b.normal_blocks()):
+        for s in b.stmts(bb):
+            r = s.get("r") or {}
+            if s.get("k") != "assign" or r.get("k") != "agg" or r.get("adt") != "preflate_rs::scan_deflate::BlockChunk" or r.get("vname") == "Literal":
+                continue
+            n += 1
+            res_ops = [o for o, f in zip(r["ops"], r["fields"]) if True]
+            roots = set()
+            for o in r["ops"]:
+                p = op_place(o)
+                hops = 0
+                while p is not None and "DecompressResult" in b.local_ty(p["l"]) and hops < 8:
+                    hops += 1
+                    if b.local_ty(p["l"]).startswith("preflate_rs::preflate_container::DecompressResult"):
+                        roots.add(p["l"])             # every local on the move chain that *is* the result value
+                    d = b.single_def(p["l"])
+                    if not d or d[2] != "assign" or d[3]["k"] != "use":
+                        break
+                    p = op_place(d[3]["op"])
+            used = []
+            for l in roots:
+                for rb in sorted(b.normal_blocks()):
+                    if not (b.dominates(rb, bb) or rb == bb):
+                        continue
+                    for s2 in b.stmts(rb):
+                        r2 = s2.get("r") or {}
+                        if s2.get("k") != "assign" or r2.get("k") != "use":
+                            continue
+                        p2 = op_place(r2["op"])
+                        if p2 is None or p2["l"] != l or not any(isinstance(e, dict) and e.get("n") == "compressed_size" for e in p2["p"]):
+                            continue
+                        t = flow.taint(b, {s2["p"]["l"]})
+                        to_index = bool(t & idx)
+                        to_test = any(b.term(x)["k"] == "switch" and op_place(b.term(x)["d"]) is not None and op_place(b.term(x)["d"])["l"] in t and b.dominates(x, bb) for x in b.normal_blocks())
+                        if to_index or to_test:
+                            used.append("advances the cursor" if to_index else "is compared before the chunk is recorded")
+            rep.add("A9", "consumed-length-accounted:%s#%d" % (r.get("vname"), sum(1 for k in rep.obs if k.rule == "A9" and str(k.instance).startswith("consumed-length-accounted:%s#" % r.get("vname")))),
+                    bool(used), b.where(bb), "res.compressed_size %s" % (sorted(set(used)) if used else "is never read in this arm: the chunk's extent does not depend on what the decoder consumed"))
+    rep.floor("A9", "recorded-stream-chunks", n, 4)
+
+
 def a2(F, rep):
     names = ["LITERAL_CHUNK", "DEFLATE_STREAM", "PNG_COMPRESSED"]
     vals = {}
@@ -354,6 +404,7 @@ def run(ctx, rep):
     res = a1(F, rep)
     a1t(F, rep, res)
     a8(F, rep)
+    a9(F, rep)
     a2(F, rep)
     a3(F, rep)
     from . import scan
